@@ -755,15 +755,7 @@ func runC07_6(c *Ctx) {
 		}
 	}
 	// closeLocked: delete on every path past the CAS
-	closeLocked := p.Fn(Root, "session", "closeLocked")
-	try := p.MethodObj(Root, "session", "tryChangeStatus")
-	for _, e := range CondCallEdges(closeLocked, try) {
-		w := &Walk{P: p, Stop: func(i ssa.Instruction) bool { return IsCallTo(i, del) }}
-		w.FromBlock(e.True)
-		c.fact("must-pass")
-		c.Check(len(w.Exits) == 0 && len(w.Hits) > 0, "closeLocked deletes from index", p.InstrPos(e.If), "sessHub.delete on every path past the CAS",
-			"closeLocked can finish without removing the session from the index")
-	}
+	checkCloseLockedDeletes(c)
 	// readDisconnected: delete dominates the waits / cancel / close / redial / hook
 	rd := p.Fn(Root, "session", "readDisconnected")
 	dels := CallsTo(rd, del)
@@ -1067,4 +1059,25 @@ func readLoopReadCall(p *Prog) (reader *ssa.Function, readCall ssa.Instruction) 
 		return nil, nil
 	}
 	return
+}
+
+// checkCloseLockedDeletes: every successful entry of closeLocked into ActiveClosing (from Ok or from Preparing)
+// removes the session from the index.
+func checkCloseLockedDeletes(c *Ctx) {
+	p := c.P
+	del := p.MethodObj(Root, "SessionHub", "delete")
+	closeLocked := p.Fn(Root, "session", "closeLocked")
+	try := p.MethodObj(Root, "session", "tryChangeStatus")
+	n := 0
+	for _, e := range CondCallEdges(closeLocked, try) {
+		n++
+		w := &Walk{P: p, Stop: func(i ssa.Instruction) bool { return IsCallTo(i, del) }}
+		w.FromBlock(e.True)
+		c.fact("must-pass")
+		c.Check(len(w.Exits) == 0 && len(w.Hits) > 0, "closeLocked deletes from index", p.InstrPos(e.If), "sessHub.delete on every path past the CAS",
+			"closeLocked can finish without removing the session from the index: a session closed while still preparing (rejected by a hook that had already called SetID) stays listed for ever")
+	}
+	if n == 0 {
+		c.Undec("closeLocked CAS", p.Pos(closeLocked.Pos()), "no tryChangeStatus test found in closeLocked")
+	}
 }
